@@ -18,6 +18,9 @@ class Runner:
         self._kinds = {}
         self.timeouts = 0
         self.skipped = 0
+        self.repeat_cases = 0
+        self.repeat_failures = []
+        self._batches = 0
 
     def close(self):
         shutil.rmtree(self.tmp, ignore_errors=True)
@@ -47,7 +50,40 @@ class Runner:
             if r.get("status") == "timeout":
                 self.timeouts += 1
             out.append((pr, r, m))
+        self._repeat(out, trace)
         return out
+
+    def _repeat(self, out, trace):
+        """a sample of the batch is assembled once more at the end (same source, same files written again, same process,
+        after all the other programs of the batch used the same file names with other contents): same result"""
+        if self.timeouts or len(out) < 2:
+            return
+        self._batches += 1
+        import random
+        rr = random.Random(f"repeat:{self._batches}:{len(out)}")
+        for pr, r, _ in rr.sample(out, min(8, len(out))):
+            if r.get("status") == "timeout":
+                continue
+            impl.write_files(self.tmp, pr.get("files"), pr.get("bins"))
+            r2 = impl.assemble(pr["src"], pr["rom"], cwd=self.tmp, defines=pr.get("defines"), timeout=20.0)
+            if r2.get("status") == "timeout":
+                self.timeouts += 1
+                return
+            self.repeat_cases += 1
+            a, b = impl.canon({**r, "labels": r.get("labels", [])}), impl.canon({**r2, "labels": r2.get("labels", [])})
+            if a != b and len(self.repeat_failures) < 5:
+                self.repeat_failures.append({"src": pr["src"], "rom": pr["rom"], "files": sorted((pr.get("files") or {}).keys()) + sorted((pr.get("bins") or {}).keys()),
+                                             "first": a[:300], "again": b[:300], "programs_in_between": len(out)})
+
+    def repeat_stream(self):
+        s = core.Stream("S4-again", "a sample of every batch of programs is assembled a second time at the end of the batch — same source, same files (written again), same process, after the other programs of the batch (which reuse the same file names with other contents, other .map layouts, macros, tables): the outcome, writes and labels must be those of the first time")
+        s.cases = self.repeat_cases
+        s.nontrivial.add(self._batches)
+        for f in self.repeat_failures:
+            s.violate({k: f[k] for k in ("src", "rom", "files", "programs_in_between")}, f["first"], f["again"],
+                      "the same source with the same files assembles to a different result the second time in one process (something survives from the assemblies in between)")
+        s.sample({"batches": self._batches, "re-assembled": self.repeat_cases})
+        return s
 
     def correspond(self, s: core.Stream, pr, r, m):
         """model == code on writes (block by block), labels (in order) and outcome class"""
